@@ -468,4 +468,75 @@ example : srv.serveAuthH ⟨true, true, "alice"⟩ (fun c => if c = 8 then .keep
 example : srv.serveAuthH ⟨false, true, "bob"⟩ (fun _ => .keepOpen) 8 [] = [.closed] := by decide
 example : srv.serveRawH (fun _ => .keepOpen) 9 = [.ran 9] ∧ srv.serveRawH (fun _ => .keepOpen) 7 = [.closed] := by decide
 
+
+/-! ### reconfiguration DURING a connection
+
+`dispatch_sound` fixes the server for the whole connection.  A kept-alive connection can outlive a
+reconfiguration (a level raised, a permission revoked); the property speaks of the command's CURRENT
+policy, so each follow-on command must be judged by the server in force when it arrives —
+a verdict reached earlier on the same connection must not be remembered.  `serveAuthSw s1 s2 … n`
+is the loop whose first `n` commands arrive under `s1` and the rest under `s2`.
+`switch_before_step`: a command run before the switch is the one that arrived, met `s1`, and the
+remainder of the run is the loop for the remaining commands with one fewer before the switch;
+`switch_after`: everything run from the switch on meets `s2` (whatever ran before);
+`switch_none`: with `s1 = s2` the loop is `serveAuth`. -/
+
+theorem switch_none (s : Server) (sess : Sess) (keep : Nat → Bool) :
+    ∀ (n cmd : Nat) (rest : List Nat), serveAuthSw s s sess keep n cmd rest = s.serveAuth sess keep cmd rest := by
+  intro n
+  induction n with
+  | zero => intro cmd rest; rfl
+  | succ n ih =>
+    intro cmd rest
+    unfold serveAuthSw Server.serveAuth
+    cases rest with
+    | nil => rfl
+    | cons next rest' => (simp only [ih]; try rfl)
+
+theorem switch_after (s1 s2 : Server) (sess : Sess) (keep : Nat → Bool) (cmd : Nat) (rest : List Nat) (c : Nat)
+    (h : Ev.ran c ∈ serveAuthSw s1 s2 sess keep 0 cmd rest) :
+    ∃ hd, s2.lookup c = some hd ∧ hd.raw = false ∧
+      levelOK (s2.policyFor c) sess.authenticated sess.encrypted = true ∧ s2.authorizedFor c sess.user = true :=
+  dispatch_sound s2 sess keep rest cmd c h
+
+theorem switch_before_step (s1 s2 : Server) (sess : Sess) (keep : Nat → Bool) (n cmd : Nat) (rest : List Nat)
+    (c : Nat) (tl : List Ev) (h : serveAuthSw s1 s2 sess keep (n+1) cmd rest = Ev.ran c :: tl) :
+    c = cmd ∧
+    (∃ hd, s1.lookup c = some hd ∧ hd.raw = false ∧ s1.satisfies c sess = true) ∧
+    (tl = [.closed] ∨ ∃ next rest', rest = next :: rest' ∧ tl = serveAuthSw s1 s2 sess keep n next rest') := by
+  unfold serveAuthSw at h
+  cases hl : s1.lookup cmd with
+  | none => simp [hl] at h
+  | some hd =>
+    simp only [hl] at h
+    by_cases hr : hd.raw = true
+    · simp [hr] at h
+    · have hr' : hd.raw = false := by simpa using hr
+      by_cases hs : s1.satisfies cmd sess = true
+      · simp only [hr', Bool.false_eq_true, if_false, hs, Bool.not_true] at h
+        by_cases hk : keep cmd = true
+        · simp only [hk, Bool.not_true, Bool.false_eq_true, if_false] at h
+          cases rest with
+          | nil =>
+            simp only [List.cons.injEq, Ev.ran.injEq] at h
+            obtain ⟨hc, ht⟩ := h
+            subst hc
+            exact ⟨rfl, ⟨hd, hl, hr', hs⟩, Or.inl ht.symm⟩
+          | cons next rest' =>
+            simp only [List.cons.injEq, Ev.ran.injEq] at h
+            obtain ⟨hc, ht⟩ := h
+            subst hc
+            exact ⟨rfl, ⟨hd, hl, hr', hs⟩, Or.inr ⟨next, rest', rfl, ht.symm⟩⟩
+        · have hk' : keep cmd = false := by simpa using hk
+          simp only [hk', Bool.not_false, if_true, List.cons.injEq, Ev.ran.injEq] at h
+          obtain ⟨hc, ht⟩ := h
+          subst hc
+          exact ⟨rfl, ⟨hd, hl, hr', hs⟩, Or.inl ht.symm⟩
+      · have hs' : s1.satisfies cmd sess = false := by simpa using hs
+        simp [hr', hs'] at h
+
+example : serveAuthSw srv { srv with authorizer := some (fun _ _ => false) } ⟨true, true, "alice"⟩ (fun _ => true) 2 7 [8, 7, 7]
+    = [.ran 7, .ran 8, .closed] ∧
+    serveAuthSw srv srv ⟨true, true, "alice"⟩ (fun _ => true) 2 7 [8, 7, 7] = [.ran 7, .ran 8, .ran 7, .ran 7, .closed] := by decide
+
 end Cedar.C05
